@@ -1253,6 +1253,17 @@ func (f *fn) retStmt(o *w, rs *ast.ReturnStmt) {
 		r := f.expr(rs.Results[0])
 		o.line("%s", wrap(r.val()))
 	case "valueErr":
+		if len(rs.Results) == 1 {
+			// return g(...) where g returns (T, error) as well: g's outcome is this function's outcome
+			if ce, ok := rs.Results[0].(*ast.CallExpr); ok {
+				r := f.expr(ce)
+				if r.pure {
+					fail(rs.Pos(), "returned call translated as pure")
+				}
+				o.line("%s", wrap(r.val()))
+				return
+			}
+		}
 		if len(rs.Results) != 2 {
 			fail(rs.Pos(), "return arity")
 		}
